@@ -302,9 +302,10 @@ def _bad_blocks(plain, stored, dec, owners, judged):
             if s != p:
                 yield i, "bypass"
         elif dec[16 * i:16 * i + n] != p:
-            # a short last block that was encrypted comes back padded to 16 bytes: then it was not "left plain"
-            # even if its few bytes happen to coincide with the plaintext
-            left_plain = s == p and (n == 16 or len(stored) == len(plain))
+            # "left plain" = the whole stored block is the plaintext (plus zero padding of a short last block); a few
+            # bytes of a short block that merely coincide with the plaintext do not count
+            full = stored[16 * i:16 * i + 16]
+            left_plain = full == p + bytes(len(full) - n)
             yield i, ("plain" if left_plain else "garbled")
 
 
